@@ -46,6 +46,11 @@ CLAIMS = {
             "are used before anything mutates the probe sets, StripedSet::internal_resize moves every element of every old bucket once into "
             "bucket(hash(element)) of the new table and frees the old table afterwards, every bucket adapter/policy inserts the moved item "
             "exactly once. SplitList/Feldman growth is not covered here.", PATHS, "DESIGN.md §4 C17"),
+    "C22": ("other", "Path rules over the lock primitives: spin_lock (exchange/acquire, lock returns only after a successful try_lock, release "
+            "store), reentrant_spin_lock (re-entrance only for the owner, ownership recorded after acquisition, last unlock clears owner then "
+            "releases, nested unlock only decrements), pool_monitor (lock pointer written only under the spin bit, +-reference arithmetic, "
+            "pool lock detached only by the last holder and returned after the spin release), injecting_monitor/lock_array forwarding. "
+            "Mutual exclusion as a behavioural fact is not decided.", PATHS, "DESIGN.md §4 C22"),
     "C24": ("other", "Path rules over the three Vyukov-queue pools and pool_allocator: deallocate gives an object to exactly one owner (queue iff in "
             "the preallocated range / lazy: queue xor heap), destroyed before published, refused pushes retried; allocate returns the popped "
             "object or one fresh allocation; preallocation pushes each object of [first,last) once and from_pool tests exactly that range; "
